@@ -30,7 +30,9 @@ var c12Calls = []mc.Call{
 	{"Pooled", func() string {
 		return tt(TwoSampleTTest(Sample{Xs: []float64{1, 2, 3, 5}}, Sample{Xs: []float64{2, 4, 6, 9, 11}}, LocationLess))
 	}},
-	{"Paired", func() string { return tt(PairedTTest([]float64{1, 2, 3, 5}, []float64{2, 4, 6, 9}, 0, LocationGreater)) }},
+	{"Paired", func() string {
+		return tt(PairedTTest([]float64{1, 2, 3, 5}, []float64{2, 4, 6, 9}, 0, LocationGreater))
+	}},
 	{"OneSample", func() string { return tt(OneSampleTTest(Sample{Xs: []float64{1, 2, 3, 5}}, 2, LocationDiffers)) }},
 	{"Mean/Variance/GeoMean/Bounds", func() string {
 		x := []float64{3, 1e8, 1e-8, 0.3, 7}
